@@ -88,7 +88,11 @@ func abs2(v int) int {
 """
 
 
-STATIC_KINDS = ["direct", "pmeth", "vmeth", "mexpr", "lit", "xpkg", "generic", "xgeneric"]
+# kinds whose callee is resolved statically, so that with an empty Yield nothing in the program is blocking.
+# A directly called function literal is NOT in this list: FuncInfo.Visit leaves the FuncLit (and the call expression
+# around it) on its visitor stack, a later markBlocking then marks that call expression Blocking as well, and in the
+# direct build the call is hoisted past earlier non-blocking calls (the recorded hoisting finding, in disguise).
+STATIC_KINDS = ["direct", "pmeth", "vmeth", "mexpr", "xpkg", "generic", "xgeneric"]
 
 
 class Rich:
